@@ -395,6 +395,12 @@ func (l *LockServer) CreateSession(ctx context.Context, sessionInfo map[string]a
 	return sessionId, ctx
 }
 
+// SetShuttingDown marks the server as shutting down. Sessions that end after this point
+// (because the network layer is being stopped) keep their locks in the state file.
+func (l *LockServer) SetShuttingDown() {
+	l.isShutdown.Store(true)
+}
+
 // DestroySession destroys the session
 func (l *LockServer) DestroySession(ctx context.Context) (sessionId string) {
 	sessionId = ctx.Value(sessionCtxKey).(string)
